@@ -363,10 +363,14 @@ where
 	let mut results = Vec::new();
 	for _ in 0..n_calls {
 		let r = reader.deserialize_seed_next(Cap::root(&ctx));
+		#[cfg(ten0_serde_avro_fast_verif)]
+		let st = reader.verif_state().0;
+		#[cfg(not(ten0_serde_avro_fast_verif))]
+		let st = "unknown";
 		match r {
-			Ok(Some(v)) => results.push(json!({"r": "some", "value": v})),
-			Ok(None) => results.push(json!({"r": "none"})),
-			Err(e) => results.push(json!({"r": "err", "io": e.io_error().is_some(), "msg": e.to_string()})),
+			Ok(Some(v)) => results.push(json!({"r": "some", "value": v, "st": st})),
+			Ok(None) => results.push(json!({"r": "none", "st": st})),
+			Err(e) => results.push(json!({"r": "err", "io": e.io_error().is_some(), "msg": e.to_string(), "st": st})),
 		}
 	}
 	let st = ctx.stats.borrow();
@@ -409,4 +413,161 @@ pub fn op_reader(cmd: &J) -> Result<J, String> {
 		}
 		other => return Err(format!("unknown reader kind {other}")),
 	})
+}
+
+// ---------------------------------------------------------------------------------------------
+// large blocks: content generated here from a seed, compared here, reported as item positions
+// ---------------------------------------------------------------------------------------------
+fn gen_payload(kind: &str, size: usize, seed: u64) -> Vec<u8> {
+	let mut x = seed.wrapping_mul(0x9E3779B97F4A7C15) | 1;
+	let mut next = move || {
+		x ^= x << 13;
+		x ^= x >> 7;
+		x ^= x << 17;
+		x
+	};
+	match kind {
+		"zeros" => vec![0u8; size],
+		"text" => (0..size).map(|i| b"the quick brown fox jumps over the lazy dog "[(i + seed as usize) % 44]).collect(),
+		_ => (0..size).map(|_| next() as u8).collect(),
+	}
+}
+
+/// schema "bytes": write items of the given sizes (optionally finish_block after some), read the file back with the
+/// requested reader, report per result the position of the written item it equals (0 if none).
+pub fn op_big_roundtrip(cmd: &J) -> Result<J, String> {
+	let codec = cmd["codec"].as_str().unwrap_or("null");
+	let level = cmd.get("level").and_then(|l| l.as_u64()).map(|l| l as u8);
+	let compression = compression_of(codec, level)?;
+	let approx = cmd.get("approx").and_then(|a| a.as_u64()).unwrap_or(64 * 1024) as u32;
+	let seed = cmd.get("seed").and_then(|a| a.as_u64()).unwrap_or(1);
+	let schema: serde_avro_fast::Schema = r#""bytes""#.parse().map_err(|e| format!("{e}"))?;
+	let mut items: Vec<Vec<u8>> = Vec::new();
+	let mut flush_after: Vec<bool> = Vec::new();
+	for (i, it) in cmd["items"].as_array().ok_or("items")?.iter().enumerate() {
+		items.push(gen_payload(it["kind"].as_str().unwrap_or("rand"), it["size"].as_u64().ok_or("size")? as usize, seed + i as u64));
+		flush_after.push(it.get("flush").and_then(|f| f.as_bool()).unwrap_or(false));
+	}
+	let mut config = SerializerConfig::new(&schema);
+	let mut write_results = Vec::new();
+	let mut sink = Vec::new();
+	let wr = catch_unwind(AssertUnwindSafe(|| -> Result<(), String> {
+		let mut w = WriterBuilder::new(&mut config)
+			.compression(compression)
+			.approx_block_size(approx)
+			.sync_marker([9; 16])
+			.build(&mut sink)
+			.map_err(|e| format!("build: {e}"))?;
+		for (it, fl) in items.iter().zip(&flush_after) {
+			match w.serialize(serde_bytes::Bytes::new(it)) {
+				Ok(()) => write_results.push(json!("ok")),
+				Err(e) => write_results.push(json!(format!("err: {e}"))),
+			}
+			if *fl {
+				match w.finish_block() {
+					Ok(()) => write_results.push(json!("ok")),
+					Err(e) => write_results.push(json!(format!("err: {e}"))),
+				}
+			}
+		}
+		match w.into_inner() {
+			Ok(_) => write_results.push(json!("ok")),
+			Err(e) => write_results.push(json!(format!("err: {e}"))),
+		}
+		Ok(())
+	}));
+	let write_status = match wr {
+		Err(_) => json!({"res": "panic", "msg": crate::ops::LAST_PANIC.with(|c| c.borrow().clone())}),
+		Ok(Err(e)) => json!({"res": "err", "msg": e}),
+		Ok(Ok(())) => json!({"res": "ok"}),
+	};
+	// project the blocks (count, payload size)
+	let mut blocks = Vec::new();
+	if let Some(hdr_end) = find_header_end(&sink) {
+		let (bl, stop) = walk_blocks(&sink, hdr_end, codec);
+		for b in &bl {
+			blocks.push(json!({"count": b["count"], "size": b["size"], "raw_len": b.get("raw").and_then(|r| r.as_array()).map(|a| a.len()),
+				"deframe_err": b.get("deframe_err")}));
+		}
+		blocks.push(json!({"stop": stop, "len": sink.len()}));
+	}
+	// read back
+	let n_calls = items.len() + 3;
+	let rd = &cmd["reader"];
+	let kind = rd.get("kind").and_then(|k| k.as_str()).unwrap_or("slice");
+	let read = catch_unwind(AssertUnwindSafe(|| -> J {
+		fn drive<'de, R>(
+			r: Result<Reader<R>, serde_avro_fast::object_container_file_encoding::FailedToInitializeReader>,
+			n_calls: usize,
+			items: &[Vec<u8>],
+		) -> J
+		where
+			R: serde_avro_fast::de::read::take::Take + serde_avro_fast::de::read::ReadSlice<'de> + std::io::BufRead,
+			<R as serde_avro_fast::de::read::take::Take>::Take: serde_avro_fast::de::read::ReadSlice<'de> + std::io::BufRead,
+		{
+			let mut reader = match r {
+				Ok(r) => r,
+				Err(e) => return json!({"init": "err", "msg": e.to_string(), "results": []}),
+			};
+			let mut results = Vec::new();
+			let mut k = 0usize;
+			for _ in 0..n_calls {
+				match reader.deserialize_next::<serde_bytes::ByteBuf>() {
+					Ok(Some(v)) => {
+						k += 1;
+						let item = if k <= items.len() && items[k - 1] == v.as_slice() { k } else { 0 };
+						results.push(json!({"r": "some", "item": item, "io": false, "st": "unknown"}));
+					}
+					Ok(None) => results.push(json!({"r": "none", "item": 0, "io": false, "st": "unknown"})),
+					Err(e) => results.push(json!({"r": "err", "item": 0, "io": e.io_error().is_some(), "st": "unknown", "msg": e.to_string()})),
+				}
+			}
+			json!({"init": "ok", "results": results})
+		}
+		match kind {
+			"slice" => drive(Reader::from_slice(&sink), n_calls, &items),
+			"bufreader" => {
+				let cap = rd.get("cap").and_then(|c| c.as_u64()).unwrap_or(8192) as usize;
+				drive(Reader::from_reader(std::io::BufReader::with_capacity(cap.max(1), std::io::Cursor::new(sink.clone()))), n_calls, &items)
+			}
+			_ => {
+				let sched: Vec<usize> = rd.get("sched").and_then(|s| s.as_array()).map(|a| a.iter().map(|x| x.as_u64().unwrap_or(1) as usize).collect()).unwrap_or_default();
+				drive(Reader::from_reader(ChunkedReader::new(sink.clone(), sched)), n_calls, &items)
+			}
+		}
+	}));
+	let read = match read {
+		Ok(j) => j,
+		Err(_) => json!({"init": "panic", "msg": crate::ops::LAST_PANIC.with(|c| c.borrow().clone()), "results": []}),
+	};
+	Ok(json!({"res": "ok", "write": write_status, "write_results": write_results, "file_len": sink.len(), "blocks": blocks, "read": read, "n": items.len()}))
+}
+
+/// end of the header (first byte after the sync marker) of a file produced by the writer, by parsing the metadata map
+fn find_header_end(file: &[u8]) -> Option<usize> {
+	if file.len() < 4 {
+		return None;
+	}
+	let mut pos = 4;
+	loop {
+		let mut count = read_varint(file, &mut pos)?;
+		if count == 0 {
+			break;
+		}
+		if count < 0 {
+			count = -count;
+			read_varint(file, &mut pos)?;
+		}
+		for _ in 0..count {
+			let kl = read_varint(file, &mut pos)?;
+			pos += kl as usize;
+			let vl = read_varint(file, &mut pos)?;
+			pos += vl as usize;
+		}
+	}
+	if pos + 16 <= file.len() {
+		Some(pos + 16)
+	} else {
+		None
+	}
 }
